@@ -56,7 +56,7 @@ def record_flatten(seg, d):
 
 def rand_curve(rng):
     order = rng.choice([3, 4, 4])
-    fam = rng.choice(["int", "grid", "float"])
+    fam = rng.choice(["int", "grid", "float", "scurve", "axishandles", "teardrop", "retracted"])
     pts = oc.rand_seg_pts(rng, order, fam)
     if order == 3 and rng.random() < 0.4:
         a, c = pts[0], pts[2]
